@@ -1109,9 +1109,9 @@ def evaluate__xml_to_json(self: XPathFunction, context: ta.ContextType = None) \
 
     if len(self) > 1:
         options = self.get_argument(context, index=1, required=True, cls=XPathMap)
-        indent = options(context, 'indent')
-        if indent is not None and isinstance(indent, bool):
-            raise self.error('FOJS0005')
+        indent = options('indent', context=context)
+        if indent != [] and not isinstance(indent, bool):
+            raise self.error('XPTY0004')
 
     def elem_to_json(elements: Iterable[ElementProtocol]) -> str:
         chunks = []
